@@ -56,7 +56,7 @@ def gen_op(rng, built, nprobes, allow_hypothesis=True):
         if n == "properties" and kind != "column":
             continue
         names.append(n)
-        weights.append(w)
+        weights.append(w * 2.5 if n in MODEL_ONLY else w)
     name = rng.choices(names, weights)[0]
     op = {"op": name}
     if name in ("validate", "call", "validate_cfg", "coerce_dtype", "get_dtypes",
